@@ -1,6 +1,7 @@
 package props
 
 import (
+	"bytes"
 	"fmt"
 
 	"verif/mc"
@@ -119,6 +120,30 @@ func c01Case(c *mc.Ctx, cfg ref.Cfg, it ref.Item, v ref.V, vs string, undoc stri
 			c.Outcome("mismatch")
 			c.Violation(pre+"mismatch:"+path, detail+" data="+hx(data))
 			return
+		}
+		// the same value handed to Marshal BY VALUE (the interface then holds the value itself, for
+		// pointer-shaped structs directly in its data word) must round-trip too
+		if it.T.K == ref.KPtr {
+			// a pointer handed over "by value" IS the pointer form of its target type: nothing new
+			c.Outcome("ok")
+			return
+		}
+		c.Dim("by-value")
+		data2, err := p.Marshal(nil, rv.Interface())
+		if err != nil {
+			c.Violation(pre+"marshal-error-by-value", err.Error())
+			return
+		}
+		if !bytes.Equal(data, data2) {
+			out2 := fresh(it.T)
+			if err := p.Unmarshal(data2, out2.Interface()); err != nil {
+				c.Violation(pre+"unmarshal-error-by-value", err.Error()+" data="+hx(data2))
+				return
+			}
+			if path, detail, differ := ref.Diff(it.T, want, ref.FromReflect(it.T, out2.Elem())); differ {
+				c.Violation(pre+"mismatch-by-value:"+path, detail+" by pointer="+hx(data)+" by value="+hx(data2))
+				return
+			}
 		}
 		if len(data) == 0 {
 			c.Outcome("ok-empty")
